@@ -15,6 +15,15 @@ if rnd >= 2:
              "different source files, including the helper packages the anchored code calls into), and at least two of "
              "them should need a state, threshold, sequence of calls, rarely used API route, option combination or error "
              "path to show (something a straightforward random test of the main entry point would be unlikely to reach).\n")
+if rnd >= 3:
+    extra = ("\nThis is a third round: two earlier rounds already produced the obvious and the moderately hidden slips for this "
+             "property (wrong variable, missing copy, dropped guard, cache without invalidation, shortcut that skips a step, "
+             "reordered checks). Be inventive and different: look at code that is only REACHED indirectly by the anchored "
+             "mechanisms (helper packages such as listMap, funcGen stack helpers, value/arg, export writers, the optimizer, "
+             "type registration, description/documentation paths used in error messages), at interactions of two options or two "
+             "features that are each tested alone, at boundary sizes where a representation switches, at behaviour after an "
+             "error has occurred once, and at API entry points other than the main one. Each of the three changes must be in a "
+             "different source file, and none of them may need a data race or timing to show (deterministic demos only).\n")
 t = f"""You are given a scratch git worktree of the Go library hneemann/parser2 at {wt} (a configurable expression language: tokenizer, precedence parser, AST optimizer, closure-compiling evaluator with lists/maps/lazy list operations). Work ONLY inside {wt} (do not read or touch /repo or /verif; do not commit). Go environment for every shell call: `export GOFLAGS=-mod=mod GOPROXY=off` (no network; the module cache has everything; `cd {wt} && go build ./... && go test -vet=off -count=1 ./...` is the existing test suite and passes now).
 
 Here is a semantic property the library is supposed to have:
